@@ -427,6 +427,13 @@ def _instance_attr(m, q, name):
     return False
 
 
+ROOT = 99        # redispatch depth: "the root formatter", however far up
+
+
+def _decos(fn):
+    return {(dotted(d.func) if isinstance(d, ast.Call) else dotted(d)) or "" for d in fn.decorator_list}
+
+
 def redispatch_targets(handler, model=None, names=None, _depth=0):
     """If a handler forwards the *same* node to another formatter's print (`self.parent.print(*args, **kwargs)`,
     `self.parent.print(printer, node)`), return the list of parent-chain depths it forwards to.  With a model and the class
@@ -457,22 +464,59 @@ def redispatch_targets(handler, model=None, names=None, _depth=0):
                 h2 = model.method(handler.cls, self_attr(c.func))
                 if h2 is not None:
                     out += redispatch_targets(h2, model, names, _depth + 1)
-    for c in walk_no_nested(handler.node):
-        if not (isinstance(c, ast.Call) and isinstance(c.func, ast.Attribute) and c.func.attr == "print"):
-            continue
-        depth, v = 0, c.func.value
+    # locals that hold the edit of the node being handled (`edit = node.edit if node.edited else None`)
+    def _is_node_edit(a):
+        return isinstance(a, ast.Attribute) and a.attr == "edit" and isinstance(a.value, ast.Name) and a.value.id in passthrough
+    edit_locals = set()
+    for a_ in walk_no_nested(handler.node):
+        if isinstance(a_, ast.Assign) and len(a_.targets) == 1 and isinstance(a_.targets[0], ast.Name):
+            vals_ = [a_.value.body, a_.value.orelse] if isinstance(a_.value, ast.IfExp) else [a_.value]
+            if any(_is_node_edit(v_) for v_ in vals_):
+                edit_locals.add(a_.targets[0].id)
+
+    def is_edit(a):
+        return _is_node_edit(a) or (isinstance(a, ast.Name) and a.id in edit_locals)
+
+    def receiver_depth(v, hops=0):
+        """number of parent steps from this formatter to the formatter `v` denotes; ROOT for `<anything of self>.root`; None if
+        it is not this formatter or one of its ancestors.  A property of the formatter class is read through its return."""
+        depth = 0
         while isinstance(v, ast.Attribute) and v.attr == "parent":
             depth += 1
             v = v.value
-        if not (isinstance(v, ast.Name) and v.id == "self"):
+        if isinstance(v, ast.Name) and v.id == "self":
+            return depth
+        if isinstance(v, ast.Attribute) and v.attr == "root":
+            b = v.value
+            while isinstance(b, (ast.Attribute, ast.Subscript)):
+                b = b.value
+            return ROOT if isinstance(b, ast.Name) and b.id == "self" else None
+        if isinstance(v, ast.Attribute) and isinstance(v.value, ast.Name) and v.value.id == "self" and model is not None and handler.cls and hops < 2:
+            pr = model.method(handler.cls, v.attr)
+            if pr is not None and "property" in _decos(pr.node):
+                rets = [r.value for r in walk_no_nested(pr.node) if isinstance(r, ast.Return) and r.value is not None]
+                if len(rets) == 1:
+                    d = receiver_depth(rets[0], hops + 1)
+                    return None if d is None else (ROOT if d == ROOT else d + depth)
+        return None
+    for c in walk_no_nested(handler.node):
+        if not (isinstance(c, ast.Call) and isinstance(c.func, ast.Attribute) and c.func.attr == "print"):
             continue
-        if depth == 0:
+        # `edit.print(self, printer)`: the edit renders itself with this formatter - what `self.print(printer, edit)` falls back to
+        if is_edit(c.func.value) and c.args and isinstance(c.args[0], ast.Name) and c.args[0].id == "self":
+            out.append(0)
+            continue
+        depth = receiver_depth(c.func.value)
+        if depth is None:
+            continue
+        if depth == 0 or depth == ROOT:
             # `self.print(printer, node.edit)`: the edit of the very node being handled goes back into this formatter's own
-            # protocol, whose Match/compound printing hands the node (still carrying that edit) to the same lookup again
-            if any(isinstance(a, ast.Attribute) and a.attr == "edit" and isinstance(a.value, ast.Name) and a.value.id in passthrough
-                   for a in c.args) and not any(k.arg == "with_edits" for k in c.keywords):
-                out.append(0)
-            continue
+            # protocol (or into the root's, which looks the handler up from the top again), whose Match/compound printing hands the
+            # node (still carrying that edit) to the same lookup again
+            if any(is_edit(a) for a in c.args) and not any(k.arg == "with_edits" for k in c.keywords):
+                out.append(depth)
+            if depth == 0:
+                continue
         args = []
         for a in c.args:
             args.append("*" + a.value.id if isinstance(a, ast.Starred) and isinstance(a.value, ast.Name) else
@@ -559,6 +603,8 @@ def e5_cycles(ctx, roots, node_classes):
                             break
                         nxt = owner
                         for _ in range(depths[0]):
+                            if depths[0] == ROOT and nxt is not None and nxt.parent is None:
+                                break
                             nxt = nxt.parent if nxt is not None else None
                         if nxt is None:
                             break
